@@ -18,7 +18,7 @@ theorem wtl_nil (w : Node → Nat) (a : Node → Bool) : wtl w [] a = 0 := rfl
 theorem wtl_cons (w : Node → Nat) (n : Node) (l : List Node) (a : Node → Bool) :
     wtl w (n :: l) a = (if a n = true then w n else 0) + wtl w l a := by
   unfold wtl
-  by_cases h : a n = true <;> simp [List.filter_cons, h]
+  by_cases h : a n = true <;> simp [h]
 
 theorem wtl_mono {w : Node → Nat} {l : List Node} {a b : Node → Bool}
     (h : ∀ n ∈ l, a n = true → b n = true) : wtl w l a ≤ wtl w l b := by
@@ -94,10 +94,10 @@ theorem votes_cons_vote (v : Vote) (h : List Ev) : votes (.vote v :: h) = v :: v
 theorem votes_cons_subset (e : Ev) (h : List Ev) : votes h ⊆ votes (e :: h) := by
   cases e <;> simp [votes]
 
-theorem votes_cons_sublist (e : Ev) (h : List Ev) : votes h <+ votes (e :: h) := by
+theorem votes_cons_sublist (e : Ev) (h : List Ev) : List.Sublist (votes h) (votes (e :: h)) := by
   cases e <;> simp [votes]
 
-theorem votes_sublist {t h : List Ev} (hs : t <:+ h) : votes t <+ votes h := by
+theorem votes_sublist {t h : List Ev} (hs : t <:+ h) : List.Sublist (votes t) (votes h) := by
   obtain ⟨s, rfl⟩ := hs
   induction s with
   | nil => simp
@@ -143,6 +143,10 @@ theorem inSupp_mono {t h : List Ev} (hs : t <:+ h) {p s x n} (hv : inSupp t p s 
   rw [inSupp_iff] at *
   exact hv.imp (votedFor_mono hs) (equivocated_mono hs)
 
+/-- `Q` in the form of DESIGN Appendix C: the support of `(p, s, x)` weighs at least `T` -/
+theorem Q_iff_supp {P : Params} {h : List Ev} {p s x} :
+    Q P h p s x ↔ P.T ≤ ((supp P h p s x).map P.w).sum := Iff.rfl
+
 theorem Q_mono {P : Params} {t h : List Ev} (hs : t <:+ h) {p s x} (hq : Q P t p s x) : Q P h p s x :=
   Nat.le_trans hq (wtl_mono (fun _ _ hv => inSupp_mono hs hv))
 
@@ -153,16 +157,94 @@ theorem certQ_mono {P : Params} {t h : List Ev} (hs : t <:+ h) {p v} (hq : certQ
 theorem stagedQ_mono {P : Params} {t h : List Ev} (hs : t <:+ h) {p v} (hq : stagedQ P t p v) :
     stagedQ P h p v := hq.imp (softQ_mono hs) (certQ_mono hs)
 
-theorem nextKs_subset {t h : List Ev} (hs : t <:+ h) : nextKs t ⊆ nextKs h :=
-  ((votes_sublist hs).filterMap _).subset
+theorem mem_insertNew {a b : Nat} {l : List Nat} : b ∈ insertNew a l ↔ b = a ∨ b ∈ l := by
+  unfold insertNew
+  by_cases h : a ∈ l
+  · rw [if_pos h]
+    constructor
+    · exact Or.inr
+    · rintro (rfl | hb)
+      · exact h
+      · exact hb
+  · rw [if_neg h]; exact List.mem_cons
+
+theorem mem_nextKs {h : List Ev} {p k : Nat} :
+    k ∈ nextKs h p ↔ ∃ v ∈ votes h, v.p = p ∧ v.s = .next k := by
+  induction h with
+  | nil => simp [nextKs, votes]
+  | cons e h ih =>
+      cases e with
+      | vote v =>
+          obtain ⟨n, q, s, x⟩ := v
+          cases s with
+          | next j =>
+              by_cases hq : q = p
+              · subst hq
+                have e1 : nextKs (.vote ⟨n, q, .next j, x⟩ :: h) q = insertNew j (nextKs h q) := by
+                  simp [nextKs]
+                rw [e1, mem_insertNew, ih]
+                constructor
+                · rintro (rfl | ⟨v, hv, h1, h2⟩)
+                  · exact ⟨_, List.mem_cons_self, rfl, rfl⟩
+                  · exact ⟨v, List.mem_cons_of_mem _ hv, h1, h2⟩
+                · rintro ⟨v, hv, h1, h2⟩
+                  rcases List.mem_cons.1 hv with rfl | hv
+                  · cases h2; exact Or.inl rfl
+                  · exact Or.inr ⟨v, hv, h1, h2⟩
+              · have e1 : nextKs (.vote ⟨n, q, .next j, x⟩ :: h) p = nextKs h p := by
+                  simp [nextKs, hq]
+                rw [e1, ih]
+                constructor
+                · rintro ⟨v, hv, h1, h2⟩
+                  exact ⟨v, List.mem_cons_of_mem _ hv, h1, h2⟩
+                · rintro ⟨v, hv, h1, h2⟩
+                  rcases List.mem_cons.1 hv with rfl | hv
+                  · exact absurd h1 hq
+                  · exact ⟨v, hv, h1, h2⟩
+          | soft => simp [nextKs, ih, votes]
+          | cert => simp [nextKs, ih, votes]
+      | see => simp [nextKs, ih, votes]
+      | enter => simp [nextKs, ih, votes]
+      | commit => simp [nextKs, ih, votes]
+      | crash => simp [nextKs, ih, votes]
+
+theorem nextKs_subset {t h : List Ev} (hs : t <:+ h) (p : Nat) : nextKs t p ⊆ nextKs h p := by
+  intro k hk
+  obtain ⟨v, hv, h1, h2⟩ := mem_nextKs.1 hk
+  exact mem_nextKs.2 ⟨v, votes_subset hs hv, h1, h2⟩
 
 theorem nextQ_mono {P : Params} {t h : List Ev} (hs : t <:+ h) {p y} (hq : nextQ P t p y) :
     nextQ P h p y := by
   obtain ⟨k, hk, hQ⟩ := hq
-  exact ⟨k, nextKs_subset hs hk, Q_mono hs hQ⟩
+  exact ⟨k, nextKs_subset hs p hk, Q_mono hs hQ⟩
 
-theorem vals_subset {t h : List Ev} (hs : t <:+ h) : vals t ⊆ vals h :=
-  ((votes_sublist hs).filterMap _).subset
+theorem mem_vals {h : List Ev} {a : Val} : a ∈ vals h ↔ ∃ v ∈ votes h, v.x = some a := by
+  induction h with
+  | nil => simp [vals, votes]
+  | cons e h ih =>
+      cases e with
+      | vote v =>
+          obtain ⟨n, q, s, x⟩ := v
+          cases x with
+          | none => simp [vals, ih, votes]
+          | some b =>
+              simp only [vals, mem_insertNew, ih, votes, List.mem_cons, exists_eq_or_imp, Option.some.injEq]
+              constructor
+              · rintro (rfl | h1)
+                · exact Or.inl rfl
+                · exact Or.inr h1
+              · rintro (rfl | h1)
+                · exact Or.inl rfl
+                · exact Or.inr h1
+      | see => simp [vals, ih, votes]
+      | enter => simp [vals, ih, votes]
+      | commit => simp [vals, ih, votes]
+      | crash => simp [vals, ih, votes]
+
+theorem vals_subset {t h : List Ev} (hs : t <:+ h) : vals t ⊆ vals h := by
+  intro a ha
+  obtain ⟨v, hv, h1⟩ := mem_vals.1 ha
+  exact mem_vals.2 ⟨v, votes_subset hs hv, h1⟩
 
 theorem conflict1_mono {P : Params} {t h : List Ev} (hs : t <:+ h) {p} (hc : Conflict1 P t p) :
     Conflict1 P h p := by
@@ -175,12 +257,9 @@ theorem conflict2_mono {P : Params} {t h : List Ev} (hs : t <:+ h) {p} (hc : Con
   exact ⟨hp, a, vals_subset hs ha, b, vals_subset hs hb, hne, nextQ_mono hs h1, nextQ_mono hs h2⟩
 
 /-- a quorum of a next step that has a vote is a next quorum -/
-theorem nextQ_of_Q {P : Params} {h : List Ev} {p k y} {v : Vote} (hv : v ∈ votes h) (hs : v.s = .next k)
-    (hQ : Q P h p (.next k) y) : nextQ P h p y := by
-  refine ⟨k, ?_, hQ⟩
-  unfold nextKs
-  rw [List.mem_filterMap]
-  exact ⟨v, hv, by rw [hs]⟩
+theorem nextQ_of_Q {P : Params} {h : List Ev} {p k y} {v : Vote} (hv : v ∈ votes h) (hp : v.p = p)
+    (hs : v.s = .next k) (hQ : Q P h p (.next k) y) : nextQ P h p y :=
+  ⟨k, mem_nextKs.2 ⟨v, hv, hp, hs⟩, hQ⟩
 
 /-! ### suffix bookkeeping -/
 
@@ -242,12 +321,12 @@ theorem honest_unique {P : Params} {h : List Ev} (wf : WF false P h) {n p s x x'
           · subst h1
             have ok' := (ok hh).1
             rcases ok' with hu | ⟨hl, _⟩
-            · exact (hu _ h2 rfl rfl rfl)
+            · exact (hu _ h2 rfl rfl rfl).symm
             · cases hl
           · subst h2
             have ok' := (ok hh).1
             rcases ok' with hu | ⟨hl, _⟩
-            · exact (hu _ h1 rfl rfl rfl).symm
+            · exact (hu _ h1 rfl rfl rfl)
             · cases hl
           · exact ih wf.1 h1 h2
       | see => exact ih wf.1 h1 h2
